@@ -1,5 +1,5 @@
-CONSTANTS Mols = {1, 2, 3}
- MaxLimit = 3
+CONSTANTS Mols = {1, 2, 3, 4}
+ MaxLimit = 2
  Growth = TRUE
 SPECIFICATION Spec
 INVARIANT NoDuplicates
